@@ -99,6 +99,8 @@ pub fn build_api(sp: &ServerPlan) -> ApiDescription<SimCtx> {
             work::register(&mut api);
             err::register(&mut api);
             echo::register(&mut api, false);
+            // (and the websocket channel: a 101 is a response too)
+            ws::register(&mut api);
         }
         ApiKind::Ws => {
             work::register(&mut api);
